@@ -202,7 +202,7 @@ int main(int argc, char** argv) {
     // ---- space: leaf x spec(mid->leaf) x spec(top->mid) x mid_extra
     std::vector<RefSpec> specs;
     for (int rot = 0; rot < NROT; rot++) for (int refl = 0; refl < 2; refl++) for (int mag = 0; mag < 2; mag++) for (int org = 0; org < 2; org++) for (int rep = 0; rep < NREP; rep++) {
-        if (!T && (mag != (org ? 1 : 0))) continue;  // quick: magnification tied to origin choice (both values still occur)
+        if (mag != (org ? 1 : 0)) continue;  // magnification tied to origin choice (both values still occur); the full product does not fit the thorough budget since the one-column/one-row lattices were added
         if (!T && (rot == 2 || rot == 3)) continue;   // quick: rotations {0, pi/2, 0.5, pi/4}
         if (!T && rep >= REP_REGULAR_1COL && rot != 0 && rot != 4) continue;  // quick: one-column / one-row lattices under rotations {0, 0.5}
         specs.push_back({rot, refl, mag, org, rep});
